@@ -232,6 +232,13 @@ func (e *c20Engine) generate(seed uint64) (*kit.Trace, *kit.Rng) {
 		t.Sites = []int{siteOpStart}
 	}
 	if kind == kindGCS {
+		if cr.Chance(1, 25) {
+			// "any number of goroutines": well beyond any small fixed-size
+			// internal resource
+			nt = []int{70, 100}[cr.Intn(2)]
+			maxOps = 1
+			t.Config["policy"] = sched.PolUniform
+		}
 		if cr.Chance(1, 4) {
 			t.Config["gcs_warm"] = 1
 		}
@@ -825,8 +832,8 @@ func (e *c20Engine) execute(t *kit.Trace, srng *kit.Rng, st *kit.Stats, record b
 		st.Runs++
 		return out
 	}
-	if nt > 60 {
-		nt = 60
+	if nt > 120 {
+		nt = 120
 	}
 	totalOps := 0
 	for _, c := range t.Clients[:nt] {
@@ -1085,6 +1092,10 @@ func (e *c20Engine) execute(t *kit.Trace, srng *kit.Rng, st *kit.Stats, record b
 		st.Probe("lock-leaked")
 		return fail(kit.V("lock-leaked", "every operation has returned but the filter mutex is still locked: the next caller would block forever"))
 	}
+	// From here on this goroutine cannot block on the filter (its mutex is
+	// free and no task is left), so the watchdog is disarmed: what follows may
+	// legitimately wait, e.g. for the history checker's pipe.
+	sched.SetInRun(false)
 
 	switch w.kind {
 	case kindGCS:
